@@ -681,7 +681,7 @@ class Counters:
         self.traces = 0
         self.fams = {}
         self.outcomes = set()
-        self.nontrivial = set()
+        self.nontrivial_traces = 0
         self.problems = {}       # key -> [count, first (path, message)]
         self.maxdev = 0.0
 
@@ -703,8 +703,7 @@ def seed_problems(spec, seed):
         name = {"C": "CanonicalTensor", "T": "TuckerTensor", "S": "TensorSum", "P": "TensorProd", "A": "ndarray"}[spec["kind"]]
         if int(spec.get("rank", 1)) == 0:
             name += ".zeros"
-        return [("ctor:%s:order%d:exception:%s" % (name, len(spec["shape"]), type(e).__name__),
-                 "%s(%s) raised %r" % (name, tuple(spec["shape"]), e))]
+        return [(exc_key(e), "%s(%s) raised %r" % (name, tuple(spec["shape"]), e))]
     return []
 
 
@@ -736,7 +735,6 @@ def walk(st, depth, seed, ext, grow, path, fams, stack, cnt, first_only=None):
     evs = menu(st.kind, st.model.shape, ext and not path, grow)
     if first_only is not None:
         evs = [evs[first_only]]
-    leaf = True
     for ev in evs:
         probs, child, info = apply_event(st, ev, seed, depth > 1)
         cnt.transitions += 1
@@ -754,19 +752,13 @@ def walk(st, depth, seed, ext, grow, path, fams, stack, cnt, first_only=None):
                 key = key + ":" + idx_signature(ev[1])
             cnt.problem(key, p2, msg)
         f2 = fams + (ev[0],)
-        if len(set(f2)) >= 2:
-            cnt.nontrivial.add((path_kind0(stack, st), f2))
         if child is not None and depth > 1 and not probs:
-            leaf = False
             walk(child, depth - 1, seed, ext, grow, p2, f2, stack + [st], cnt)
         else:
             cnt.traces += 1
+            if len(set(f2)) >= 2:
+                cnt.nontrivial_traces += 1
     return cnt
-
-
-def path_kind0(stack, st):
-    s0 = stack[0] if stack else st
-    return (s0.kind, s0.model.ndim)
 
 
 def replay(spec, path, seed):
